@@ -657,6 +657,17 @@ class Generator:
     def _emit_one_fn(self, unit: Unit, src: Source, item: Item, opts, trait_impl: bool, assoc_types, flags):
         toks = src.toks
         w = self.w
+        # an item compiled out by its own #[cfg(feature = ..)] is absent from this configuration
+        for a, b in item.attrs:
+            m = CFG_FEATURE.match(" ".join(text_of(src, a, b).split()))
+            if m and ((m.group(2) in self.features) == bool(m.group(1))):
+                if "absent_in_this_config" not in unit.flags:
+                    unit.flags.append("absent_in_this_config")
+        if "only=default" in flags and self.features:
+            # the unit's text under this feature set is outside the verifier's reach: its contract is *assumed* here
+            flags = list(flags) + ["external_body"]
+            if "external_body" not in unit.flags:
+                unit.flags.append("assumed_in_this_config")
         for l in opts["attr"]:
             w.emit(l + "\n")
         w.emit(kept_attrs(src, item))
